@@ -80,12 +80,23 @@ def store_lines_of_file(path):
 
 
 class Monitor(object):
+    _instance = None
+
+    @classmethod
+    def get(cls, pkg_dir):
+        """Process-wide monitor (sys.monitoring tool ids are per process)."""
+        if cls._instance is None:
+            cls._instance = cls(pkg_dir)
+            cls._instance.install()
+        return cls._instance
+
     def __init__(self, pkg_dir):
         self.pkg = pkg_dir
         self.tests = os.path.join(pkg_dir, 'tests') + os.sep
         self._store_cache = {}
         self._elig = {}      # code -> bool (PY_START eligibility)
         self.installed = False
+        self._lines_on = False
         self.reset_op()
         self.total_starts = 0
         self.total_lines = 0
